@@ -29,6 +29,6 @@ Inductive t_stmt :=
 | TAssign (v : N) (e : t_slice) | TAssignInt (v : N) (e : t_int)
 | TIf (c : t_cond) (th el : list t_stmt)
 | TEncode (dst src : t_slice) | TReturn (e : t_slice) | TUnknown.
-Definition caps_tail : list t_stmt := [TAssign 1 (TSum (TVar 0)); TAssignInt 0 (TEncLen (TLen 1)); TAssign 2 (TReslice (TVar 1) (Some (TLen 1)) None); TIf (TCmp CLt (TCap 2) (TIntVar 0)) [TAssign 2 (TMake (TIntVar 0) None)] []; TAssign 2 (TReslice (TVar 2) None (Some (TIntVar 0))); TEncode (TVar 2) (TVar 1); TReturn (TVar 2)]%N.
+Definition caps_tail : list t_stmt := [TAssign 0 (TSum (TVar 0)); TAssign 1 (TMake (TEncLen (TLen 0)) None); TEncode (TVar 1) (TVar 0); TReturn (TVar 1)]%N.
 (* the destination that Info.Hash passes to AppendHash *)
 Definition caps_hash_dst : t_slice := TNil%N.
